@@ -70,7 +70,7 @@ def make_tensor(kind, qt, axis, shape, dtype, scale_exp=-4, salt=0, like=None):
         n = len(vals)
         v = torch.tensor([lo[(5 * p + salt) % len(lo)] - (4 if qt == "qint4" else 1) for p in range(n)], dtype=torch.float64)
         t = (v * 2.0 ** scale_exp).reshape(shape).to(dtype)
-        q = quantize_weight(t, qtype, 0, None)
+        q = quantize_weight(t, qtype, 0, 2 if list(shape) == [2, 4] else None)     # [2, 4]: two groups of two per row
         return q, q.dequantize()
     if axis == "none":
         scale = like if like is not None else torch.tensor(2.0 ** scale_exp, dtype=dtype)
